@@ -48,6 +48,7 @@ let run_case op t =
         | "ctor_n" -> (None, "static_vector.hpp")
         | "ctor_nv" -> (None, "static_vector.hpp")
         | "ctor_rg" -> (None, "static_vector.hpp")
+        | "irg_fwd" | "asr_fwd" | "ctor_rg_fwd" -> (None, "static_vector.hpp")
         | _ -> raise Not_found in
       (* which check is expected to hand its location to the handler: the order of the checks as read off
          static_vector.hpp (assert_iterator_in_range: begin() <= it, then it <= end(); then the operation's own check);
@@ -72,6 +73,23 @@ let run_case op t =
         | "asr" | "ctor_rg" -> if i0 < 0 then "last_-_first_>=_0" else "static_cast<size_type>(last_-_first)_<=_capacity()"
         | _ -> "?" in
       let file = file ^ " " ^ expr in
+      if o = "irg_fwd" || o = "asr_fwd" || o = "ctor_rg_fwd" then begin
+        (* forward-only iterators: no up-front length check; emplace_back's !full() fires once the vector is full *)
+        let room = cap - k in
+        let (stopped, e, flag) = match o with
+          | "irg_fwd" -> (match in_range i0 with
+                          | Some e -> (true, e, "1")
+                          | None -> (i1 > room, "!full()", if room = 0 then "1" else "0"))
+          | "asr_fwd" -> (i0 > cap, "!full()", "0")          (* clear() has run and four elements were inserted *)
+          | _ -> (i0 > cap, "!full()", "1") in               (* a constructor: no earlier object to compare with *)
+        (* the C01 model (pointer ranges) stops exactly the same calls *)
+        let m_stops = (match o with
+          | "irg_fwd" -> (match step pred_of s (InsertRange (false, a0, nines i1)) with Contract -> true | _ -> false)
+          | "asr_fwd" -> (match step pred_of s (AssignRange (false, nines i0)) with Contract -> true | _ -> false)
+          | _ -> stopped) in
+        if m_stops <> stopped then ("model-disagrees", "na") else
+        if stopped then ("contract " ^ flag ^ " # static_vector.hpp " ^ e, "contract " ^ flag) else ("ok", "ok")
+      end else
       let reversed = (o = "irg" && i1 < 0 && in_range i0 = None) || (o = "asr" && i0 < 0) in
       if reversed then (leg false file, sp false) else
       (match vop with
@@ -117,9 +135,14 @@ let run_case op t =
       let huge = match io' with IvAt (_, i) -> Big.gt (big_of_z i) (Big.of_int 64) | _ -> false in
       let spv = if huge then None else iv_spec_step (z_of_int cap) (List.init k (fun i -> z_of_int (i + 1)), []) io' in
       (m, sp (spv <> None))
-  | "span" ->
+  | "span" | "sspan" ->
       let n = next_z t in let o = next_str t in let a = next_z t in let b = next_z t in
       (match o with
+       (* compile-time forms on a span of dynamic extent (fix b24e9dc): the same guards, template arguments in the text *)
+       | "tfirst" -> (lege (span_first n a) "span.hpp" "Count_<=_size()", sp (pre_count n (u a)))
+       | "tlast" -> (lege (span_last n a) "span.hpp" "Count_<=_size()", sp (pre_count n (u a)))
+       | "tsub" -> (by_site (span_subspan_site n a b) "span.hpp" "Offset_<=_size()" "Count_!=_dynamic_extent_?_(Count_<=_size()_-_Offset)_:_true",
+                    sp (pre_span_subspan n (u a) (u b)))
        | "front" -> (lege (span_front n) "span.hpp" "not_empty()", sp (pre_nonempty n))
        | "back" -> (lege (span_back n) "span.hpp" "not_empty()", sp (pre_nonempty n))
        | "idx" -> (lege (span_index n a) "span.hpp" "idx_<_size()", sp (pre_index n (u a)))
@@ -180,7 +203,7 @@ let run_case op t =
       ((if which = "strchr" || which = "strchr_m" then lege ok file "str_!=_nullptr"
         else by_site (copy_ptrs_site (not dn) (not sn)) file "dest_!=_nullptr" "src_!=_nullptr"), sp ok)
 
-  | "str" | "wstr" ->
+  | "str" | "wstr" | "u16str" ->
       let cap = next_int t in let k = next_int t in let o = next_str t in
       let rec rest acc = if more t then rest (next_z t :: acc) else List.rev acc in
       let args = rest [] in
@@ -193,9 +216,8 @@ let run_case op t =
       let src n = take (small n) src_all in
       let cstr n = src n @ [Z0] in
       let zc = z_of_int cap in
-      let wide = (op = "wstr") in
-      let str_make c l n = if wide then str_make_w c l n else str_make c l n in
-      let str_ctor_fill c n ch = if wide then str_ctor_fill_w c n ch else str_ctor_fill c n ch in
+      let str_make c l n = (match op with "wstr" -> str_make_w c l n | "u16str" -> str_make_16 c l n | _ -> str_make c l n) in
+      let str_ctor_fill c n ch = (match op with "wstr" -> str_ctor_fill_w c n ch | "u16str" -> str_ctor_fill_16 c n ch | _ -> str_ctor_fill c n ch) in
       let s = match str_make zc (codes "abcdefghijklmnopqrst") (z_of_int k) with Ok s -> s | _ -> failwith "init" in
       let f = "basic_inplace_string.hpp" and fv = "basic_string_view.hpp" in
       let size = str_size s in
@@ -207,13 +229,43 @@ let run_case op t =
       let idx_le = (f, "index_<=_size()") and pos_le = (f, "pos_<=_size()") and svpos = (fv, "pos_<=_size()") in
       let fits = (f, "static_cast<size_type>(last_-_first)_<=_capacity()_-_size()") in
       let nonempty = (f, "not_empty()") in
+      let push = (f, "size()_<_capacity()") in
+      let npos = z_of_big (Big.sub two64 Big.one) in
+      let s0 () = match str_make zc [] Z0 with Ok s -> s | _ -> failwith "init0" in
       (match o with
        | "ctor_ptr" -> let r = str_make zc src_all (ua 0) in (of_res (f, "len_<=_Capacity") r, sp (not (gt (ua 0) zc)))
        | "ctor_fill" -> let r = str_ctor_fill zc (ua 0) z in (of_res (f, "count_<=_Capacity") r, sp (not (gt (ua 0) zc)))
        | "asg_cstr" -> by_op (f, "len_<=_capacity()") (OAssignCstr (cstr (ua 0)))
        | "asg_fill" -> by_op (f, "count_<=_capacity()") (OAssignFill (ua 0, z))
        | "asg_ptr" -> by_op (f, "count_<=_capacity()") (OAssignPtr (src_all, ua 0))
-       | "asg_view_sub" -> by_op (if gt (ua 1) (ua 0) then svpos else (f, "len_<=_Capacity")) (OAssignViewSub (src (ua 0), ua 1, ua 2))
+       | "asg_view_sub" -> by_op (if gt (ua 1) (ua 0) then svpos else fits) (OAssignViewSub (src (ua 0), ua 1, ua 2))
+       (* constructors / assignments from a range, a view, a C string (0c6dc7f: the range constructor is
+          append(first, last) on the empty string under construction; s0 = that empty string) *)
+       | "ctor_cstr" | "asg_cstr2" -> let r = str_make zc (cstr (ua 0)) (ua 0) in (of_res (f, "len_<=_Capacity") r, sp (not (gt (ua 0) zc)))
+       | "ctor_rng" | "ctor_rev" | "ctor_view" -> (of_res fits (str_step (s0 ()) (OAppendRange (src (ua 0)))), sp (not (gt (ua 0) zc)))
+       | "ctor_rng_rev" | "asg_rng_rev" -> let ok = Big.sign (big_of_z (ua 0)) = 0 in (lege ok f "last_-_first_>=_0", sp ok)
+       | "ctor_fwd" | "asg_fwd" -> (of_res push (str_step (s0 ()) (OAppendRangeIn (src (ua 0)))), sp (not (gt (ua 0) zc)))
+       | "ctor_view_sub" -> let vo = OAssignViewSub (src (ua 0), ua 1, ua 2) in
+                            (of_res (if gt (ua 1) (ua 0) then svpos else fits) (str_step (s0 ()) vo), sp (str_pre_doc Z0 zc vo))
+       | "ctor_str_sub" -> let vo = OAssignStrSub (src (ua 0), ua 1, ua 2) in (of_res fits (str_step (s0 ()) vo), sp (str_pre_doc Z0 zc vo))
+       | "ctor_str_pos" -> let vo = OAssignStrSub (src (ua 0), ua 1, ua 0) in (of_res fits (str_step (s0 ()) vo), sp (str_pre_doc Z0 zc vo))
+       | "asg_rng" | "asg_rev" | "asg_view" | "opeq_view" -> by_op fits (OAssignViewSub (src (ua 0), Z0, npos))
+       | "opeq_ch" -> by_op (f, "count_<=_capacity()") (OAssignPtr ([z], z_of_int 1))
+       | "asg_str_sub" -> by_op fits (OAssignStrSub (src (ua 0), ua 1, ua 2))
+       | "app_rev" -> by_op fits (OAppendRange (src (ua 0)))
+       | "app_fwd" ->
+           (* no up-front check: push_back's precondition fires once the string is full; the string has been modified by
+              then unless it was full at the start *)
+           let vo = OAppendRangeIn (src (ua 0)) in
+           let flag = if k = cap then "1" else "0" in
+           ((match str_step s vo with Ok _ -> "ok" | Contract -> "contract " ^ flag ^ " # " ^ f ^ " size()_<_capacity()" | UB _ -> "ub" | OutOfFuel -> "fuel"),
+            (if str_pre_doc (z_of_int k) zc vo then "ok" else "contract " ^ flag))
+       | "plus_str" -> by_op fits (OAppendStr (src (ua 0)))
+       | "plus_cstr" | "app_cstr" -> by_op fits (OAppendCstr (cstr (ua 0)))
+       | "plus_ch" | "pluseq_ch" -> by_op fits (OAppendFill (z_of_int 1, z))
+       | "app_view" -> by_op fits (OAppendPtr (src (ua 0), ua 0))
+       | "resize1" -> by_op fits (OResize (ua 0, Z0))
+       | "copy" -> ("ok", "ok")   (* copy(dest, count, pos) clamps: pos > size() copies nothing; no precondition *)
        | "front" | "cfront" -> let r = str_front s in (of_res nonempty r, sp (Big.sign (big_of_z size) > 0))
        | "back" | "cback" -> let r = str_back s in (of_res nonempty r, sp (Big.sign (big_of_z size) > 0))
        | "idx" | "cidx" -> let r = str_index s (ua 0) in (of_res (f, "index_<_size()_+_1") r, sp (not (gt (ua 0) size)))
@@ -249,6 +301,11 @@ let run_case op t =
       let d = next_z t in
       (by_site (static_set_ctor_site (z_of_int 4) d) "static_set.hpp" "last_-_first_>=_0" "static_cast<size_type>(last_-_first)_<=_max_size()",
        sp (pre_range_fits (z_of_int 4) d))
+  | "sset_dup" ->
+      (* the same guard (it looks at the length only); documented answer only up to max_size() elements *)
+      let d = next_z t in
+      (by_site (static_set_ctor_site (z_of_int 4) d) "static_set.hpp" "last_-_first_>=_0" "static_cast<size_type>(last_-_first)_<=_max_size()",
+       if pre_range_fits (z_of_int 4) d then "ok" else "na")
   | "cpy" ->
       let which = next_str t in let dn = next_bool t in let sn = next_bool t in
       (by_site (copy_ptrs_site (not dn) (not sn)) (which ^ ".hpp") "dest_!=_nullptr" "src_!=_nullptr", sp (pre_both_nonnull (not dn) (not sn)))
@@ -276,6 +333,19 @@ let run_case op t =
       let zero = z_of_int 48 and one = z_of_int 49 in
       (by_site (bitset_str_site chars pos n zero one) "bitset.hpp" "pos_<=_str.size()" "Traits::eq(str[pos_+_i],_zero)_or_Traits::eq(str[pos_+_i],_one)",
        sp (pre_bitset_str chars (u pos) (u n) zero one))
+  | "bsstr2" ->
+      let chars = next_zlist t in let pos = next_z t in let n = next_z t in
+      let zero = z_of_int 48 and one = z_of_int 50 in
+      (by_site (bitset_str_site chars pos n zero one) "bitset.hpp" "pos_<=_str.size()" "Traits::eq(str[pos_+_i],_zero)_or_Traits::eq(str[pos_+_i],_one)",
+       sp (pre_bitset_str chars (u pos) (u n) zero one))
+  | "bscstr" ->
+      (* bitset(char const* str, n): view = n == npos ? view(str) : view(str, n); then the view constructor with pos = 0 *)
+      let chars = next_zlist t in let _ = next_z t in let n = next_z t in
+      let zero = z_of_int 48 and one = z_of_int 49 in
+      let npos = z_of_big (Big.sub two64 Big.one) in
+      let view = if u n = npos then chars else List.filteri (fun i _ -> Big.lt (Big.of_int i) (big_of_z (u n))) chars in
+      (by_site (bitset_str_site view Z0 n zero one) "bitset.hpp" "pos_<=_str.size()" "Traits::eq(str[pos_+_i],_zero)_or_Traits::eq(str[pos_+_i],_one)",
+       sp (pre_bitset_str view Z0 (u n) zero one))
   | "tostr" ->
       let cap = next_z t in let ty = next_str t in let v = next_z t in
       (* the value the call receives: the case-file number converted to the parameter type *)
